@@ -67,6 +67,12 @@ def find_def(tree, qualname):
                 node = st
                 break
         if node is None:
+            # the definition may have been moved to another nesting level (a closure lifted to module level, a helper nested
+            # into its only caller): accept it when the LAST name component identifies exactly one def in the whole module
+            last = parts[-1]
+            found = [st for st in ast.walk(tree) if isinstance(st, (ast.FunctionDef, ast.ClassDef)) and st.name == last]
+            if len(found) == 1 and len(parts) > 1 and p == last:
+                return found[0]
             raise ExtractionError(f"definition {qualname!r} not found (missing {p!r})")
         body = node.body
     return node
@@ -330,6 +336,7 @@ class _Rewriter(ast.NodeTransformer):
 
 class Extracted:
     sym_containers = False
+    native_all = False
 
     def __init__(self, relpath, qualname, fn_node, text, orig_text, path, loops_seen):
         self.relpath, self.qualname = relpath, qualname
@@ -351,6 +358,10 @@ class Extracted:
         mod = ast.Module(body=[self.node], type_ignores=[])
         ast.fix_missing_locations(mod)
         env.setdefault("__locals", locals_snapshot)
+        from .units import pure_stdlib
+
+        for k_, v_ in pure_stdlib().items():
+            env.setdefault(k_, v_)
         code = compile(mod, self.path, "exec")
         exec(code, env)
         result = env[self.node.name]
@@ -379,6 +390,16 @@ class Extracted:
                 for al in st.names:
                     if al.name in defs and (al.asname or al.name) not in top:
                         top[al.asname or al.name] = (rel, al.name)
+        # names imported from the pure helper modules of the standard library (``from collections import defaultdict``)
+        from .units import pure_stdlib
+
+        pure = pure_stdlib()
+        for st in tree.body:
+            if isinstance(st, ast.ImportFrom) and st.level == 0 and st.module in pure:
+                for al in st.names:
+                    nm = al.asname or al.name
+                    if nm in _global_names(code) and nm not in env and hasattr(pure[st.module], al.name):
+                        env[nm] = getattr(pure[st.module], al.name)
         for name in sorted(_global_names(code)):
             if name in env or name in seen or hasattr(builtins, name) or name not in top:
                 continue
@@ -386,7 +407,10 @@ class Extracted:
             where = top[name]
             rel, real_name = (where, name) if isinstance(where, str) else where
             try:
-                ex = extract(rel, real_name, cut_loops="auto", sym_containers=self.sym_containers)
+                if self.native_all:
+                    ex = extract(rel, real_name, native_loops="all", sym_containers=self.sym_containers)
+                else:
+                    ex = extract(rel, real_name, cut_loops="auto", sym_containers=self.sym_containers)
             except ExtractionError:
                 continue
             if real_name != name:
@@ -394,6 +418,7 @@ class Extracted:
             m = ast.Module(body=[ex.node], type_ignores=[])
             ast.fix_missing_locations(m)
             c = compile(m, ex.path, "exec")
+            ex.native_all = self.native_all
             exec(c, env)
             AUTOINLINED.append(ex)
             ex._autoinline(c, env, seen)
@@ -466,6 +491,7 @@ def extract(relpath, qualname, *, cut_loops=None, native_loops=(), cut_comps=Fal
     ast.fix_missing_locations(node)
     ex = Extracted(relpath, qualname, node, ast.unparse(node), orig_text, path, rw.loops_seen)
     ex.sym_containers = sym_containers
+    ex.native_all = native_loops == "all"
     return ex
 
 
